@@ -860,6 +860,14 @@ def build_sim(sc):
         except Exception as e:  # noqa: BLE001
             v = S.err_name(e)
         feas.append([int(interface.current_time), v])
+        # a PRICE-AWARE scheduler: when the simulation carries a tariff signal it stops charging.  None of the scenarios here is
+        # given one (signals is left at its default), so this never triggers — unless a signal leaks in from an unrelated
+        # simulation of the same process (observe_all runs one between the base run and the variants)
+        try:
+            interface.get_prices(1)
+            return {k: [0.0] * len(vv) for k, vv in schedule.items()}
+        except Exception:  # noqa: BLE001
+            pass
         if sc.get("scribble"):
             # a scheduler that keeps a safety margin by DERATING, in place, the description it was handed — and halves what it
             # was told about the sessions.  What it is handed are its own copies (C05), so nothing may accumulate anywhere: equal
@@ -947,9 +955,34 @@ def keyed(raw):
     }
 
 
+def _unrelated_experiment(attach):
+    """another simulation of the same process, built WITHOUT signals like every scenario here.  attach=False: it makes sure it leaves
+    nothing behind in whatever container it was given; attach=True: a user prices it by attaching a tariff IN PLACE when the
+    simulator offers a container (`sim.signals["tariff"] = …`), else by binding a new dict.  Equal inputs must still give equal
+    outputs afterwards: nothing one simulator is given by default may be shared with the next."""
+    try:
+        from acnportal.acnsim.simulator import Simulator
+        from acnportal.acnsim.network import ChargingNetwork
+        from acnportal.acnsim.events import EventQueue
+        from acnportal.algorithms import BaseAlgorithm
+        from acnportal.signals.tariffs.tou_tariff import TimeOfUseTariff
+        sim = Simulator(ChargingNetwork(), BaseAlgorithm(), EventQueue(), S.START, verbose=False)
+        if isinstance(sim.signals, dict):
+            if attach:
+                sim.signals["tariff"] = TimeOfUseTariff("sce_tou_ev_4_march_2019")
+            else:
+                sim.signals.clear()
+        elif attach:
+            sim.signals = {"tariff": TimeOfUseTariff("sce_tou_ev_4_march_2019")}
+    except Exception:  # noqa: BLE001
+        pass
+
+
 def observe_all(case):
     vs = variants_of(case)
+    _unrelated_experiment(False)
     out = {"base": keyed(run_scenario(case["sc"]))}
+    _unrelated_experiment(True)
     for name in VARIANTS:
         raw = run_scenario(vs[name])
         out[name] = keyed(raw)
